@@ -105,7 +105,10 @@ CHECKS["C12"] = dict(
          "transaction pipeline theorem, also across reorganisations: C12_no_vouching_reorg). Correspondence through the real "
          "untrusted handler map sharing the real trusted state (systematic header-proof shapes), the pipeline suite with "
          "untrusted re-sends after reorgs, the two-run comparison executed on the implementation, and a lock-order replay "
-         "(an untrusted double spend arriving while a block is inside ProcessBlock must not stall the node).",
+         "(an untrusted double spend arriving while a block is inside ProcessBlock must not stall the node), the vouching "
+         "scenarios on real UntrustedNode objects (only the trusted connection sets the mempool's trusted mark), and an "
+         "untrusted peer that has stopped reading its socket while its tracker check transmits (the trusted peer's next "
+         "block must still be processed).",
     note="Trusted: Coq kernel; models Sync.v / TxFlow.v validated by correspondence; untrusted traffic only enters through "
          "NewUntrustedMessageHandlers.",
     technique="Coq two-run (non-interference) proof + model/implementation correspondence + two-run diff on the implementation",
@@ -201,7 +204,10 @@ CHECKS["C18"] = dict(
          "session was handled since the current connection started (props/C18.v, 10 theorems). Correspondence: real "
          "handleMessage with really forged AcceptRegister messages (7 kinds, real keys), and real runConnection / "
          "sendMessages / sendMessage / Ready / handleMessage over an in-memory connection with slow close, with accepts "
-         "made for the current, an earlier or no session.",
+         "made for the current, an earlier or no session. Source obligation: the call sites of the ungated write path "
+         "sendDirect, re-read from remote_client.go on every run (translator/sends.go -> gen/SendSites.v), are the two "
+         "the send machine model has; when that breaks (and in the thorough tier) the real keep-alive goroutine runs for "
+         "two minutes against a connection whose handshake is not complete.",
     note=_CLIENT_NOTE + " ECDSA unforgeability and key derivation are idealised; the send-machine scenarios are "
          "deterministic schedules with a 25 ms settle time, the theorems cover all interleavings.",
     technique="Coq invariant proofs (symbolic crypto; transition system of the send path) + model/implementation correspondence + trace monitors",
